@@ -82,6 +82,7 @@ def run(ctx):
         doc = rm.gen_doc(rng, dup=dup)
         try:
             d = repro.parse_deb822_file(doc.splitlines(True), accept_files_with_duplicated_fields=True)
+            twin, twin_text = repro.parse_deb822_file(doc.splitlines(True), accept_files_with_duplicated_fields=True), doc     # a second, untouched document from the same text
         except Exception as e:
             t.failed("generated document rejected: %r" % (e,), document=doc)
             break
@@ -246,6 +247,10 @@ def run(ctx):
             m = m2
             d_ = d
         if bad or t.fail:
+            break
+        if not t.fail and twin.dump() != twin_text:
+            t.failed("editing one document changed another document parsed from the same text (shared state)", document=twin_text,
+                     operations=ops, twin_dump=twin.dump())
             break
         t.case(key=(doc, str(ops)) if ops else None, sample={"document": doc, "operations": ops} if len(ops) >= 3 else None)
     t.done()
